@@ -476,4 +476,285 @@ def specInteger (m : IntegerM) (st : St F) : IntegerNode × St F :=
      valueKind := v.1, min := mn'.1, max := mx'.1, inc := ic.1.getD (.imm 1), unit := m.unit,
      representation := rep, pSelected := sel.1 }, mx'.2)
 
+/-! ## IntSwissKnife -/
+
+def listPure {α β : Type} (g : α → β) (vs : List α) (st : St F) : List β × St F := (vs.map g, st)
+
+/-- `pVariable Name="x"` → node reference -/
+def pVarS (x : Str × Str) (st : St F) : NamedValue Nat × St F :=
+  (⟨x.1, (internS x.2 st).1⟩, (internS x.2 st).2)
+
+/-- a formula text `formula::parse` accepts (formula syntax itself is property C05) -/
+structure FormulaText (F : Type) [FloatLit F] where
+  text : Str
+  ok : FloatLit.formulaOk (F := F) text = true
+
+structure IntSwissKnifeM (F : Type) [FloatLit F] where
+  attr : AttrM
+  elem : ElemM
+  streamable : Option BoolLit
+  /-- `(Name attribute, referenced node)` -/
+  pVariables : List (Str × Str)
+  constants : List (Str × IntLit)
+  expressions : List (Str × FormulaText F)
+  formula : FormulaText F
+  unit : Option Str
+  representation : Option IntRepr
+
+variable [FloatLit F]
+
+def IntSwissKnifeM.children (m : IntSwissKnifeM F) : List Elem :=
+  flat (m.elem.segs [] ++
+    [ .opt cs!"Streamable" (m.streamable.map fun b => tb b.text),
+      .many cs!"pVariable" (m.pVariables.map fun x => ntb x.1 x.2),
+      .many cs!"Constant" (m.constants.map fun x => ntb x.1 x.2.text),
+      .many cs!"Expression" (m.expressions.map fun x => ntb x.1 x.2.text),
+      .one cs!"Formula" (tb m.formula.text),
+      .opt cs!"Unit" (m.unit.map tb),
+      .opt cs!"Representation" (m.representation.map fun r => tb r.text) ])
+def IntSwissKnifeM.render (m : IntSwissKnifeM F) : Elem :=
+  .node cs!"IntSwissKnife" m.attr.render m.children
+
+def specIntSwissKnife (m : IntSwissKnifeM F) (st : St F) : IntSwissKnifeNode × St F :=
+  let a := specAttr m.attr st
+  let e := specElem m.elem [] a.2
+  let v := listS pVarS m.pVariables e.2
+  ({ attr := a.1, elem := e.1, streamable := (m.streamable.map BoolLit.val).getD false,
+     pVariables := v.1, constants := m.constants.map fun x => ⟨x.1, x.2.val⟩,
+     expressions := m.expressions.map fun x => ⟨x.1, x.2.text⟩, formula := m.formula.text,
+     unit := m.unit,
+     representation := m.representation.getD .pureNumber }, v.2)
+
+/-! ## Register base -/
+
+/-- one address particle (an embedded `IntSwissKnife` is not part of the abstract syntax
+of the theorems; it is covered by the correspondence run) -/
+inductive AddrM where
+  | address (l : IntLit)
+  | pAddress (n : RefName)
+  /-- `pIndex` without attribute, with `Offset="…"`, or with `pOffset="…"` -/
+  | pIndex (offset : Option (IntLit ⊕ Str)) (p : Str)
+
+def AddrM.body : AddrM → AddrTag × Body
+  | .address l => (.address, tb l.text)
+  | .pAddress n => (.pAddress, tb n.name)
+  | .pIndex none p => (.pIndex, tb p)
+  | .pIndex (some (.inl l)) p => (.pIndex, ([(cs!"Offset", l.text)], (tb p).2))
+  | .pIndex (some (.inr n)) p => (.pIndex, ([(cs!"pOffset", n)], (tb p).2))
+
+def addrS : AddrM → St F → AddressKind × St F
+  | .address l, st => (.address (.imm l.val), st)
+  | .pAddress n, st => (.address (.pnode (internS n.name st).1), (internS n.name st).2)
+  | .pIndex none p, st => (.pIndex ⟨none, (internS p st).1⟩, (internS p st).2)
+  | .pIndex (some (.inl l)) p, st => (.pIndex ⟨some (.imm l.val), (internS p st).1⟩, (internS p st).2)
+  | .pIndex (some (.inr n)) p, st =>
+    (.pIndex ⟨some (.pnode (internS n st).1), (internS p (internS n st).2).1⟩,
+      (internS p (internS n st).2).2)
+
+structure RegM where
+  elem : ElemM
+  streamable : Option BoolLit
+  addrs : List AddrM
+  /-- `Length` | `pLength` -/
+  length : IR IntLit
+  accessMode : Option AccessMode
+  pPort : Str
+  cacheable : Option CachingMode
+  pollingTime : Option UintLit
+  pInvalidators : List Str
+
+def RegM.segs (m : RegM) : List Seg :=
+  m.elem.segs [] ++
+    [ .opt cs!"Streamable" (m.streamable.map fun b => tb b.text),
+      .manyAddr (m.addrs.map AddrM.body),
+      .one2 cs!"Length" cs!"pLength" (irBody IntLit.text m.length),
+      .opt cs!"AccessMode" (m.accessMode.map fun a => tb a.text),
+      .one cs!"pPort" (tb m.pPort),
+      .opt cs!"Cachable" (m.cacheable.map fun c => tb c.text),
+      .opt cs!"PollingTime" (m.pollingTime.map fun l => tb l.text),
+      .many cs!"pInvalidator" (m.pInvalidators.map tb) ]
+
+def regTags : List Str :=
+  elemTags ++ [cs!"Streamable", cs!"Address", cs!"IntSwissKnife", cs!"pAddress", cs!"pIndex",
+    cs!"AccessMode", cs!"Cachable", cs!"PollingTime"]
+
+/-- defaults: not streamable, `RO`, `WriteThrough`, no polling time -/
+def specReg (m : RegM) (st : St F) : RegBase × St F :=
+  let e := specElem m.elem [] st
+  let a := listS addrS m.addrs e.2
+  let l := irIntS m.length a.2
+  let p := internS m.pPort l.2
+  let i := listS internS m.pInvalidators p.2
+  ({ elemBase := e.1, streamable := (m.streamable.map BoolLit.val).getD false, addressKinds := a.1,
+     length := l.1, accessMode := m.accessMode.getD .ro, pPort := p.1,
+     cacheable := m.cacheable.getD .writeThrough, pollingTime := m.pollingTime.map UintLit.val,
+     pInvalidators := i.1 }, i.2)
+
+/-- `store_invalidators`: one registration `(invalidator, target)` per invalidator, in order -/
+def invalS (invalidators : List Nat) (target : Nat) (st : St F) : St F :=
+  { st with invals := st.invals ++ invalidators.map fun i => (i, target) }
+
+/-! ## IntReg, MaskedIntReg, StringReg / Register -/
+
+structure IntRegM where
+  attr : AttrM
+  reg : RegM
+  sign : Option Sign
+  endianness : Option Endianness
+  unit : Option Str
+  representation : Option IntRepr
+  pSelected : List Str
+
+def intRegTail (sign : Option Sign) (endianness : Option Endianness) (unit : Option Str)
+    (representation : Option IntRepr) (pSelected : List Str) : List Seg :=
+  [ .opt cs!"Sign" (sign.map fun x => tb x.text),
+    .opt cs!"Endianess" (endianness.map fun x => tb x.text),
+    .opt cs!"Unit" (unit.map tb),
+    .opt cs!"Representation" (representation.map fun r => tb r.text),
+    .many cs!"pSelected" (pSelected.map tb) ]
+
+def IntRegM.children (m : IntRegM) : List Elem :=
+  flat (m.reg.segs ++ intRegTail m.sign m.endianness m.unit m.representation m.pSelected)
+def IntRegM.render (m : IntRegM) : Elem := .node cs!"IntReg" m.attr.render m.children
+
+/-- defaults `Unsigned`, `LittleEndian`, `PureNumber`; the register's invalidators are
+registered for the node after everything is read -/
+def specIntReg (m : IntRegM) (st : St F) : IntRegNode × St F :=
+  let a := specAttr m.attr st
+  let r := specReg m.reg a.2
+  let s := listS internS m.pSelected r.2
+  ({ attr := a.1, reg := r.1, sign := m.sign.getD .unsigned, endianness := m.endianness.getD .le,
+     unit := m.unit, representation := m.representation.getD .pureNumber, pSelected := s.1 },
+   invalS r.1.pInvalidators a.1.id s.2)
+
+/-- `Bit` | `LSB` `MSB` -/
+inductive BitM where
+  | bit (b : UintLit)
+  | range (lsb msb : UintLit)
+
+def BitM.segs : BitM → List Seg
+  | .bit b => [.one cs!"Bit" (tb b.text)]
+  | .range l m => [.one cs!"LSB" (tb l.text), .one cs!"MSB" (tb m.text)]
+
+def BitM.val : BitM → BitMask
+  | .bit b => .singleBit b.val
+  | .range l m => .range l.val m.val
+
+structure MaskedM where
+  attr : AttrM
+  reg : RegM
+  bitMask : BitM
+  sign : Option Sign
+  endianness : Option Endianness
+  unit : Option Str
+  representation : Option IntRepr
+  pSelected : List Str
+
+def MaskedM.children (m : MaskedM) : List Elem :=
+  flat (m.reg.segs ++ m.bitMask.segs ++
+    intRegTail m.sign m.endianness m.unit m.representation m.pSelected)
+def MaskedM.render (m : MaskedM) : Elem := .node cs!"MaskedIntReg" m.attr.render m.children
+
+def specMasked (m : MaskedM) (st : St F) : MaskedIntRegNode × St F :=
+  let a := specAttr m.attr st
+  let r := specReg m.reg a.2
+  let s := listS internS m.pSelected r.2
+  ({ attr := a.1, reg := r.1, bitMask := m.bitMask.val, sign := m.sign.getD .unsigned,
+     endianness := m.endianness.getD .le, unit := m.unit,
+     representation := m.representation.getD .pureNumber, pSelected := s.1 },
+   invalS r.1.pInvalidators a.1.id s.2)
+
+/-- `StringReg` and `Register` -/
+structure PlainRegM where
+  attr : AttrM
+  reg : RegM
+
+def PlainRegM.children (m : PlainRegM) : List Elem := flat m.reg.segs
+def PlainRegM.render (tag : Str) (m : PlainRegM) : Elem := .node tag m.attr.render m.children
+
+def specPlainReg (m : PlainRegM) (st : St F) : PlainRegNode × St F :=
+  let a := specAttr m.attr st
+  let r := specReg m.reg a.2
+  (⟨a.1, r.1⟩, invalS r.1.pInvalidators a.1.id r.2)
+
+/-! ## StructReg -/
+
+structure EntryM where
+  attr : AttrM
+  elem : ElemM
+  pInvalidators : List Str
+  accessMode : Option AccessMode
+  cacheable : Option CachingMode
+  pollingTime : Option UintLit
+  streamable : Option BoolLit
+  bitMask : BitM
+  sign : Option Sign
+  unit : Option Str
+  representation : Option IntRepr
+  pSelected : List Str
+
+/-- schema order of a `StructEntry`: element base, `pInvalidator*`, `AccessMode`, `Cachable`,
+`PollingTime`, `Streamable`, bit mask, `Sign`, `Unit`, `Representation`, `pSelected*` -/
+def EntryM.segs (e : EntryM) : List Seg :=
+  e.elem.segs e.pInvalidators ++
+    ([ .opt cs!"AccessMode" (e.accessMode.map fun a => tb a.text),
+       .opt cs!"Cachable" (e.cacheable.map fun c => tb c.text),
+       .opt cs!"PollingTime" (e.pollingTime.map fun l => tb l.text),
+       .opt cs!"Streamable" (e.streamable.map fun b => tb b.text) ] ++
+     (e.bitMask.segs ++
+      [ .opt cs!"Sign" (e.sign.map fun x => tb x.text),
+        .opt cs!"Unit" (e.unit.map tb),
+        .opt cs!"Representation" (e.representation.map fun r => tb r.text),
+        .many cs!"pSelected" (e.pSelected.map tb) ]))
+
+def EntryM.body (e : EntryM) : Body := (e.attr.render, flat e.segs)
+
+structure StructM where
+  /-- attributes of the `StructReg` element (`Comment` …); the parser reads none -/
+  attrs : List (Str × Str)
+  reg : RegM
+  endianness : Option Endianness
+  entries : List EntryM
+
+def StructM.children (m : StructM) : List Elem :=
+  flat (m.reg.segs ++
+    [ .opt cs!"Endianess" (m.endianness.map fun x => tb x.text),
+      .many cs!"StructEntry" (m.entries.map EntryM.body) ])
+def StructM.render (m : StructM) : Elem := .node cs!"StructReg" m.attrs m.children
+
+/-- what the entry itself declares (defaults filled in, flags for the declared
+defaultable properties) -/
+def specEntry (e : EntryM) (st : St F) : StructEntryNode × St F :=
+  let a := specAttr e.attr st
+  let el := specElem e.elem e.pInvalidators a.2
+  let s := listS internS e.pSelected el.2
+  ({ attr := a.1
+     elem := { el.1 with pInvalidators := [] }
+     declared :=
+       { visibility := e.elem.visibility.isSome, isDeprecated := e.elem.isDeprecated.isSome
+         imposedAccessMode := e.elem.imposedAccessMode.isSome, streamable := e.streamable.isSome
+         accessMode := e.accessMode.isSome, cacheable := e.cacheable.isSome }
+     pInvalidators := el.1.pInvalidators
+     accessMode := e.accessMode.getD .ro
+     cacheable := e.cacheable.getD .writeThrough
+     pollingTime := e.pollingTime.map UintLit.val
+     streamable := (e.streamable.map BoolLit.val).getD false
+     bitMask := e.bitMask.val, sign := e.sign.getD .unsigned, unit := e.unit
+     representation := e.representation.getD .pureNumber, pSelected := s.1 }, s.2)
+
+/-- `into_masked_int_regs`: merge every entry with the structure's register base and register
+the merged invalidators, in entry order -/
+def maskedOfEntries (reg : RegBase) (en : Endianness) :
+    List StructEntryNode → St F → List MaskedIntRegNode × St F
+  | [], st => ([], st)
+  | e :: es, st =>
+    let m := e.toMasked reg en
+    let r := maskedOfEntries reg en es (invalS m.reg.pInvalidators m.attr.id st)
+    (m :: r.1, r.2)
+
+def specStruct (m : StructM) (st : St F) : List MaskedIntRegNode × St F :=
+  let r := specReg m.reg st
+  let es := listS specEntry m.entries r.2
+  maskedOfEntries r.1 (m.endianness.getD .le) es.1 es.2
+
 end CamVerif.XmlParse
